@@ -6,7 +6,7 @@ import dm
 import gen_dm
 
 ID = "C13"
-PROP_FILES = ["Properties/C13.v", "Properties/C13_options.v"]
+PROP_FILES = ["Properties/C13.v", "Properties/C13_options.v", "Properties/C13_rebox.v"]
 THEOREMS = ["C13_treat_columns", "C13_treat_reference_row", "C13_treat_full_rank", "C13_sum_columns_zero",
             "C13_sum_omitted_row", "C13_sum_full_rank", "C13_sum_unit_num", "C13_treat_full_is_identity",
             "C13_sum_full_spans_everything", "C13_reference_irrelevant", "C13_treatment_sum_same_space",
@@ -58,6 +58,13 @@ def gen(rng, tier):
         for p in ps:
             cases.append({"kind": "levels", "perm": list(p), "wrapper": rng.choice(["C", "T", "S", "C-sum"]),
                           "seed": rng.randrange(10 ** 6)})
+    # a coded factor coded AGAIN: C() around C / T / S keeps whatever the inner call fixed and the outer call does not
+    # give anew (contrast and levels independently)
+    for k in (3, 4):
+        lv = ["a", "b", "c", "d"][:k]
+        for p_ in (list(itertools.permutations(lv)) if tier == "thorough" else rng.sample(list(itertools.permutations(lv)), 4)):
+            for w in ("CC-sum", "CT-lv", "CS-lv", "CC-lv", "CC-ref"):
+                cases.append({"kind": "levels", "perm": list(p_), "wrapper": w, "seed": rng.randrange(10 ** 6)})
     for k in (3, 4):
         lv = ["a", "b", "c", "d"][:k]
         for p_ in (list(itertools.permutations(lv)) if tier == "thorough" else rng.sample(list(itertools.permutations(lv)), 5)):
@@ -123,7 +130,9 @@ def _design_case(c):
         fr = {"columns": [dm.col("y", "float", [str(rng.randint(-5, 5)) for _ in range(n)]), qcol]}
         w = c["wrapper"]
         call = {"C": "C(q, levels=lv)", "T": "T(q, levels=lv)", "S": "S(q, levels=lv)",
-                "C-sum": "C(q, Sum, levels=lv)"}[w]
+                "C-sum": "C(q, Sum, levels=lv)",
+                "CC-sum": "C(C(q, levels=lv), Sum)", "CT-lv": "C(T(q, 'b'), levels=lv)", "CS-lv": "C(S(q, 'a'), levels=lv)",
+                "CC-lv": "C(C(q, Sum), levels=lv)", "CC-ref": "C(C(q, levels=lv), Treatment('b'))"}[w]
         return f"y ~ {call}", fr, {"lv": c["perm"]}
     fr = gen_dm.make_frame(rng, factorial=True, cats=["f", "g"], nlev={"f": rng.choice([2, 3, 4]), "g": rng.choice([2, 3])})
     return _swap_formula(rng, 0), fr, {}
@@ -314,6 +323,22 @@ def oracle(c):
             return f"{f!r}: levels {comp.levels} do not follow levels={c['perm']}"
         labs = [l[len(name) + 1:-1] for l in t.labels]
         want = c["perm"][1:] if c["wrapper"] in ("C", "T") else c["perm"][:-1]
+        if c["wrapper"] in ("CT-lv", "CC-ref"):
+            want = [l for l in c["perm"] if l != "b"]     # Treatment with reference 'b' in the order levels= gives
+        if c["wrapper"] == "CS-lv":
+            want = [l for l in c["perm"] if l != "a"]     # Sum omitting 'a'
+        if c["wrapper"] in ("CT-lv", "CC-ref", "CS-lv", "CC-sum", "CC-lv"):
+            # the coding in force shows in the matrix: the row of the reference level is all 0 (Treatment), the row
+            # of the omitted level all -1 (Sum)
+            import numpy as _np
+            M = _np.asarray(d.common[name], dtype=float)
+            col = next(cc for cc in fr["columns"] if cc["name"] == "q")["values"]
+            special = {"CT-lv": "b", "CC-ref": "b", "CS-lv": "a", "CC-sum": c["perm"][-1], "CC-lv": c["perm"][-1]}[c["wrapper"]]
+            fill = 0.0 if c["wrapper"] in ("CT-lv", "CC-ref") else -1.0
+            rows = [i for i, v in enumerate(col) if v == special]
+            if rows and not _np.all(M[rows] == fill):
+                return (f"{f!r} levels={c['perm']}: the rows of level {special!r} hold {M[rows[0]].tolist()}, the coding "
+                        f"asked for ({'Treatment, reference' if fill == 0 else 'Sum, omitted level'} {special!r}) gives all {fill}")
         if labs != want:
             return f"{f!r} levels={c['perm']}: columns {labs}, expected {want} (first level is the default reference; sum omits the last)"
         return None
